@@ -648,3 +648,75 @@ def no_shared_class_state(ctx, rep, rule, classes=None):
                         tainted.pop(key, None)
     rep.ok(rule, "%d class-level mutable objects (%s); no mutation through an instance or an alias"
            % (len(shared), ", ".join(sorted(shared)) or "none"))
+
+
+# ======================================================= an exception object is not a boolean
+def _boolean_positions(fnode):
+    for node in walk_local(fnode):
+        if isinstance(node, (ast.If, ast.While, ast.IfExp)):
+            yield node.test
+        elif isinstance(node, ast.BoolOp):
+            for v in node.values:
+                yield v
+        elif isinstance(node, ast.UnaryOp) and isinstance(node.op, ast.Not):
+            yield node.operand
+        elif isinstance(node, ast.comprehension):
+            for c in node.ifs:
+                yield c
+        elif isinstance(node, ast.Assert):
+            yield node.test
+
+
+def exception_truthiness(ctx, rep, rule):
+    """in the run, its nested form and the window wrapper, `did this job raise` is decided by comparing the
+    exception value with None: the truth value of an exception object is whatever its class says
+    (`__bool__`, `__len__`), so `if job.raised_exception():` reads a falsy exception as `did not raise`"""
+    r = ctx.roles
+    funcs = [r.RUN, r.WRAP]
+    for cls in r.nestable:
+        f = ctx.prog.supplier(cls, 'co_run')
+        if f is not None and f not in funcs:
+            funcs.append(f)
+    # the private coroutines the run awaits on self (delegations, tidies)
+    for f in list(funcs):
+        if f is None:
+            continue
+        for n in walk_local(f.node):
+            if isinstance(n, ast.Await) and isinstance(n.value, ast.Call) and isinstance(n.value.func, ast.Attribute) \
+                    and isinstance(n.value.func.value, ast.Name) and n.value.func.value.id == 'self' and f.cls is not None:
+                g = ctx.prog.supplier(f.cls, n.value.func.attr)
+                if g is not None and g not in funcs and g.name.startswith('_'):
+                    sig = ctx.sigs.get(g.qualname)
+                    if sig is not None and (sig.suspends or sig.spawns or sig.cancels or sig.stores):
+                        funcs.append(g)
+    ACC = ('raised_exception', 'exception')
+
+    def is_exc(e, names):
+        if isinstance(e, ast.Call) and isinstance(e.func, ast.Attribute) and e.func.attr in ACC and not e.args:
+            return True
+        if isinstance(e, ast.Attribute) and e.attr == '_exception':
+            return True
+        if isinstance(e, ast.Name) and e.id in names:
+            return True
+        return False
+    nsite = nfun = 0
+    for f in funcs:
+        if f is None:
+            continue
+        nfun += 1
+        names = set()
+        for n in walk_local(f.node):
+            if isinstance(n, ast.Assign) and len(n.targets) == 1 and isinstance(n.targets[0], ast.Name) \
+                    and is_exc(n.value, set()):
+                names.add(n.targets[0].id)
+        for t in _boolean_positions(f.node):
+            while isinstance(t, ast.UnaryOp) and isinstance(t.op, ast.Not):
+                t = t.operand
+            if is_exc(t, names):
+                nsite += 1
+                rep.fail(rule, "%s:%d exception value compared with None" % (f.module.relpath, t.lineno), f.qualname,
+                         "`%s` is used as a boolean" % src(t),
+                         "a job that raises an exception object whose truth value is False is read as `did not "
+                         "raise`: a critical failure goes unnoticed and the run reports success")
+    rep.need(rule, nfun, 2, "functions of the run")
+    rep.ok(rule, "%d functions of the run: no exception value used as a boolean" % nfun)
